@@ -73,6 +73,9 @@ func byzInject(c *sim.Cluster, b int, kind string, other int) error {
 
 func init() {
 	monitorCtors["C09"] = func(st *mon.Stats) mon.Monitor { return mon.NewBlockSigs() }
+	// C10's last clause ("only peers in a round's set can ... have block signatures accepted for it"): the C09
+	// monitor's membership verdict, reported under C10
+	monitorCtors["C10sig"] = func(st *mon.Stats) mon.Monitor { return &relabel{Monitor: mon.NewBlockSigs(), keep: "signer-not-in-round-set", as: "C10"} }
 	monitorCtors["C09b1"] = func(st *mon.Stats) mon.Monitor { m := mon.NewBlockSigs(); m.Byz[1] = true; return m }
 	monitorCtors["C09b3"] = func(st *mon.Stats) mon.Monitor { m := mon.NewBlockSigs(); m.Byz[3] = true; return m }
 	sched.CustomActions["BZ"] = func(c *sim.Cluster, a sched.Action) error {
@@ -88,10 +91,11 @@ func init() {
 		add("S1 n=2 depth 7", s1Items("s1:2:0", 7, 2, honest))
 		add("S1 n=1 depth 10", s1Items("s1:1:0", 10, 2, honest))
 		var d0 []sched.Item
-		for _, s := range []string{scStatic3, scStatic4, scSilent4, scSilent5, scLate4, scJoin3, scLeave4, scJoin2} {
+		for _, s := range []string{scStatic3, scStatic4, scSilent4, scSilent5, scLate4, scJoin3, scLeave4, scJoin2, scTwoLeaves, scJoinLeave, scRejoin4, scRefused3, scUnknownItx, scLaggards4} {
 			d0 = append(d0, s3Items(s, 0, nil, nil, honest, 40)...)
 		}
-		add("honest seeds d=0 (8 seeds)", d0)
+		add("honest seeds d=0 (14 seeds, incl. two membership changes in one block, re-join, refused join, internal transactions of an unknown type, one-way laggard)", d0)
+		add("S3 d<=1 internal transactions of an unknown type (every 4th position, level 0)", s3Items(scUnknownItx, 1, seedPositions(scUnknownItx, 0, 0, 4), devAlphabet(nodesOf(3), 0, 0), honest, 40))
 		stride := 3
 		if th {
 			stride = 1
@@ -136,4 +140,22 @@ func init() {
 			Assumptions: []string{"malformed signature strings that make DecodeSignature return nil integers crash the verifier; those are C08's subject and are not injected here"},
 		})
 	}
+}
+
+// relabel forwards the violations of one key of a monitor under another property id.
+type relabel struct {
+	mon.Monitor
+	keep, as string
+}
+
+func (r *relabel) ID() string { return r.as }
+func (r *relabel) AfterStep(c *sim.Cluster) []ev.Violation {
+	var out []ev.Violation
+	for _, v := range r.Monitor.AfterStep(c) {
+		if v.Key == r.keep {
+			v.Property = r.as
+			out = append(out, v)
+		}
+	}
+	return out
 }
